@@ -191,7 +191,9 @@ def check(fs, want_model=False, strings_fallback=True, timeout_ms=None):
                 if r2 == z3.sat:
                     out = ('sat', s2.model() if want_model else None, 'z3')
                     break
-        if out[0] == 'unknown' and strings_fallback and _has_strings(fs):
+        # (obligation queries only -- they ask for a model; validity probes made while exploring a path routinely end in
+        # unknown, are handled conservatively, and must not pay for a portfolio each)
+        if out[0] == 'unknown' and strings_fallback and want_model and _has_strings(fs):
             v, rest, be = _portfolio(fs, want_model)
             stats['portfolio'] = stats.get('portfolio', 0) + 1
             if v != 'unknown':
